@@ -461,3 +461,20 @@ func (d *PDrv) sinkTrace(src byte) string {
 	}
 	return sb.String()
 }
+
+// traceHash hashes the motion-sink trace and motion callbacks without building strings.
+func (d *PDrv) traceHash(seed uint64) uint64 {
+	h := seed ^ 14695981039346656037
+	mix := func(x uint64) { h ^= x; h *= 1099511628211 }
+	for _, o := range d.log {
+		if o.Src == 'L' && o.Call != 'M' {
+			continue
+		}
+		mix(uint64(o.Src))
+		mix(uint64(o.Call))
+		mix(uint64(int64(o.ID)))
+		mix(uint64(b2i(o.OK)))
+		mix(uint64(o.Ev))
+	}
+	return h
+}
